@@ -38,12 +38,18 @@ package samlidp
 //@ -- login: the session is stored and returned only after the user record was loaded and bcrypt accepted the password
 //@ assert@call[C19] Put #1 (st Store, key string, v interface{}) uses user User password_verified:
 //@    StoreHas(s.Store, "/users/"+UserKeyOf(r)) == StoreHas(s.Store, "/users/"+UserKeyOf(r)) && PasswordChecked(user.HashedPassword)
-//@ assert@return[C19] #4 uses session *saml.Session, user User session_describes_user:
-//@    session != nil && session.NameID == user.Email && session.UserName == user.Name && session.UserEmail == user.Email &&
-//@    ns(session.ExpireTime) == ns(saml.TimeNow())+int64(sessionMaxAge)
+//@ -- (stated about whichever session is returned, not about the n-th return statement: a session comes either from the login
+//@ -- branch - then it describes the user whose record was loaded - or from the store under the cookie's value, unexpired)
+//@ assert@return[C19] #each (out *saml.Session) uses u=user? User, login=reached:user bool session_describes_user:
+//@    out != nil && login ==> out.NameID == u.Email && out.UserName == u.Name && out.UserEmail == u.Email &&
+//@    ns(out.ExpireTime) == ns(saml.TimeNow())+int64(sessionMaxAge)
 //@ -- cookie: the session was found in the store under the cookie's value and has not expired
-//@ assert@return[C19] #8 uses session *saml.Session unexpired_stored_session:
-//@    session != nil && ns(saml.TimeNow()) <= ns(session.ExpireTime)
+//@ assert@return[C19] #each (out *saml.Session) uses login=reached:user bool unexpired_stored_session:
+//@    out != nil && !login ==> ns(saml.TimeNow()) <= ns(out.ExpireTime)
+//@ -- and a session is handed out only if the store operation before it succeeded: the login session was written, the
+//@ -- cookie's session was read (a failed write is answered with the 500 alone, not with the 500 and then an assertion)
+//@ assert@return[C19] #each (out *saml.Session) uses lastErr=err? error after_the_store_succeeded:
+//@    out != nil ==> lastErr == nil
 //@ ghost func UserKeyOf(r *http.Request) string
 
 //@ contract (*Server).sendLoginForm
